@@ -43,4 +43,8 @@ void h_lowest_inversion_schedule(void) { ro_schedule(); }
 void h_highest_inversion_schedule(void) { ro_schedule(); }
 void h_sink_down_schedule(void) { ro_schedule(); }
 void h_bring_up_schedule(void) { ro_schedule(); }
+void h_lowest_inversion_schedule_5(void) { ro_schedule(); }
+void h_highest_inversion_schedule_5(void) { ro_schedule(); }
+void h_sink_down_schedule_5(void) { ro_schedule(); }
+void h_bring_up_schedule_5(void) { ro_schedule(); }
 #endif
